@@ -116,7 +116,7 @@ def run(F, R, tier):
     fic = duke.fn("from_inner_class", impl_ty="ObjClassName")
     if fic:
         inline[fic["key"]] = fic
-    ctx = {"c": c, "duke": duke, "quill": quill, "inline": inline, "spec": spec, "fic": fic}
+    ctx = {"c": c, "duke": duke, "quill": quill, "inline": inline, "spec": spec, "fic": fic, "roles": roles(c)}
     rl = read_line_table(ctx, R)
     r14_1(ctx, R, rl)
     r14_2(ctx, R)
@@ -132,10 +132,101 @@ def run(F, R, tier):
             "nest_jar pipeline order, wrapper forwarding")
 
 
+# ------------------------------------------------------------------------------------------------- anchors by role
+def _tail(n):
+    n = H.peel(n, refs=False)
+    while n.get("k") == "block" and "tail" in n and not n["stmts"]:
+        n = H.peel(n["tail"], refs=False)
+    return n
+
+
+def impl_of(c, pubname):
+    """the function that implements the public entry point dukenest::<pubname>: the crate function its body forwards to,
+    or the entry point itself when it does not just forward."""
+    b = c.body("dukenest::" + pubname)
+    if not b:
+        return None
+    seen = set()
+    while b and b["key"] not in seen:
+        seen.add(b["key"])
+        t = _tail(b["body"])
+        nxt = c.by_key.get((t.get("callee") or {}).get("key")) if t.get("k") == "call" else None
+        if nxt is None or not nxt.get("name"):
+            return b
+        pids = H.param_ids(b)
+        if [H.local_of(a)[0] if H.local_of(a) else None for a in t["args"]] != pids:
+            return b
+        b = nxt
+    return b
+
+
+def crate_callees(c, body, depth=1):
+    """crate functions called from `body` (closures and nested helpers included, `depth` further levels of helpers)."""
+    out = {}
+    work = [(body, 0)]
+    while work:
+        b, d = work.pop()
+        for n in H.walk(b["body"]):
+            if n.get("k") in ("call", "mcall"):
+                k_ = (n.get("callee") or {}).get("inst_key") or (n.get("callee") or {}).get("key")
+                f = c.by_key.get(k_)
+                if f is not None and f.get("name") and k_ not in out:
+                    out[k_] = f
+                    if d < depth:
+                        work.append((f, d + 1))
+    return list(out.values())
+
+
+def pick(cands, prefer):
+    """exactly one candidate; the conventional name is only a tie-breaker"""
+    if len(cands) == 1:
+        return cands[0]
+    named = [b for b in cands if b.get("name") == prefer]
+    return named[0] if len(named) == 1 else None
+
+
+def roles(c):
+    r = {}
+    r["nest_jar"] = impl_of(c, "nest_jar")
+    r["apply"] = impl_of(c, "apply_nests_to_mappings")
+    r["undo"] = impl_of(c, "undo_nests_to_mappings")
+    r["map_nests"] = impl_of(c, "remap_nests")
+    remapper_adts = {(b.get("impl_ty") or "").split("<")[0]: b for b in c.bodies if b.get("name") == "map_class_fail"}
+    r["remapper_adts"] = remapper_adts
+    # mappings side: constructor of a table-backed ARemapper from (nests, flag), used by apply and undo
+    def ctor_cands(impl):
+        if not impl:
+            return []
+        return [f for f in crate_callees(c, impl) if (f.get("output") or "").split("<")[0] in remapper_adts
+                and any("dukenest::nest::Nests" in t for t in f.get("inputs") or []) and "bool" in (f.get("inputs") or [])]
+    ca, cu = ctor_cands(r["apply"]), ctor_cands(r["undo"])
+    both = [f for f in ca if any(f is g for g in cu)]
+    r["translator_new"] = pick(both, "new")
+    r["mappings_lookup"] = remapper_adts.get((r["translator_new"].get("output") or "").split("<")[0]) if r["translator_new"] else None
+    r["add"] = pick([b for b in c.bodies if b.get("name") and len(b.get("inputs") or []) == 2 and b["inputs"][0].startswith("&mut dukenest::nest::Nests")
+                     and b["inputs"][1] == "dukenest::nest::Nest"], "add")
+    r["read_line"] = pick([b for b in c.bodies if b.get("name") and (b.get("inputs") or []) == ["&str"]
+                           and (b.get("output") or "").startswith("core::result::Result<dukenest::nest::Nest,")], "read_line")
+    r["read_loop"] = None
+    if r["read_line"]:
+        callers = [b for b in c.bodies if b.get("name") and b is not r["read_line"] and
+                   any(n.get("k") in ("call", "mcall") and ((n.get("callee") or {}).get("inst_key") or (n.get("callee") or {}).get("key")) == r["read_line"]["key"] for n in H.walk(b["body"]))]
+        r["read_loop"] = pick(callers, "read_from_reader")
+    r["split"] = r["inner_name"] = r["classifier"] = None
+    if r["map_nests"]:
+        cs = crate_callees(c, r["map_nests"], depth=0)
+        r["split"] = pick([f for f in cs if "core::option::Option<(&" in (f.get("output") or "")], "rsplit_underscore")
+        r["inner_name"] = pick([f for f in cs if len(f.get("inputs") or []) == 3 and (f.get("output") or "").startswith("core::result::Result<duke::tree::class::ObjClassName,")], "inner_name")
+    if r["inner_name"]:
+        enums = {p_ for p_, a in c.adts.items() if a["kind"] == "enum"}
+        r["classifier"] = pick([f for f in crate_callees(c, r["inner_name"], depth=0) if (f.get("output") or "").split("<")[0] in enums], "new")
+    return r
+
+
 # ------------------------------------------------------------------------------------------------- R14.1
 def jar_anchor(c):
     """(nest_jar body, filter mcall, id of the filtered table local, ctor call of the jar-side remapper)"""
-    nj = c.fn("nest_jar", within="nester_jar")
+    nj = impl_of(c, "nest_jar")
     if not nj:
         return None, None, None, None
     pids = H.param_ids(nj)
@@ -154,8 +245,7 @@ def jar_anchor(c):
         for n in H.walk(nj["body"]):
             if n.get("k") == "let" and "init" in n and n["pat"].get("k") == "bind" and any(x is filt for x in H.walk(n["init"])):
                 tid = n["pat"]["id"]
-    remapper_adts = {b["impl_ty"].split("<")[0] for b in c.bodies
-                     if b.get("name") == "map_class_fail" and (b.get("impl_ty") or "").startswith("dukenest::nester_jar::")}
+    remapper_adts = {(b.get("impl_ty") or "").split("<")[0] for b in c.bodies if b.get("name") == "map_class_fail"}
     ctor = None
     for n in H.walk(nj["body"]):
         if n.get("k") == "call" and (n.get("callee") or {}).get("dk", "").startswith("Ctor") and (n["callee"].get("adt") or "") in remapper_adts:
@@ -175,8 +265,8 @@ def r14_1(ctx, R, rl):
     nj, filt, tid, ctor = jar_anchor(c)
     ok_j = (R.anchor(rid, "fn nester_jar::nest_jar", nj) and R.anchor(rid, "filtered nests table (let .. = nests.all...filter(..).collect())", tid is not None, sp=nj and nj["sp"])
             and R.anchor(rid, "construction of the jar-side ARemapper from the rename table", ctor is not None and len(ctor["args"]) == 1, sp=nj and nj["sp"]))
-    new = c.fn("new", within="nester_run", impl_ty="MyRemapper")
-    ok_m = R.anchor(rid, "fn nester_run::MyRemapper::new", new)
+    new = ctx["roles"]["translator_new"]
+    ok_m = R.anchor(rid, "constructor (nests, flag) -> table-backed ARemapper used by apply_/undo_nests_to_mappings", new)
     for depth in (1, 2, 3, 4):
         pairs, want = chain(depth)
         want_tbl = U.table(want)
@@ -199,9 +289,10 @@ def r14_1(ctx, R, rl):
                 judge(R, rid, "agree:jar=mappings:depth-%d" % depth, jar_tbl, got[True], sp=new["sp"],
                       detail="the jar-side rename table and the mappings-side apply table must be the same function of the nests table")
     # the remappers answer from the table
-    for side, within in (("jar", "nester_jar"), ("mappings", "nester_run")):
-        fns = [b for b in c.fns("map_class_fail") if within in b["path"] or within in b["key"]]
-        if not R.anchor(rid, "impl ARemapper::map_class_fail in %s" % within, len(fns) == 1):
+    jar_lookup = ctx["roles"]["remapper_adts"].get(ctor["callee"].get("adt")) if ctor is not None else None
+    for side, f_ in (("jar", jar_lookup), ("mappings", ctx["roles"]["mappings_lookup"])):
+        fns = [f_] if f_ else []
+        if not R.anchor(rid, "impl ARemapper::map_class_fail of the %s-side remapper" % side, len(fns) == 1):
             continue
         tbl = U.table([(U.name("Old"), U.name("New"))])
         selfv = ("v", "MyRemapper", [tbl])
@@ -209,8 +300,8 @@ def r14_1(ctx, R, rl):
             ev = U.Ev(inline=inline)
             judge(R, rid, "%s:lookup:%s" % (side, what), ev.run_fn(fns[0], [selfv, arg]), want, sp=fns[0]["sp"],
                   detail="map_class_fail(name) = table.get(name)")
-    add = c.fn("add", impl_ty="Nests")
-    if R.anchor(rid, "fn Nests::add", add):
+    add = ctx["roles"]["add"]
+    if R.anchor(rid, "fn Nests::add(&mut self, Nest)", add):
         ev = U.Ev(inline=inline)
         tb = U.table([])
         nest = mk_nest("K", "E", "i")
@@ -218,8 +309,8 @@ def r14_1(ctx, R, rl):
         judge(R, rid, "table-key:Nests::add", tb, U.table([(U.name("K"), nest)]), sp=add["sp"],
               detail="every lookup (jar presence, attribute synthesis, translation) is by the un-nested class name")
     # classification
-    nta = c.fn("new", impl_ty="NestTypeA")
-    ok_n = R.anchor(rid, "fn NestTypeA::new", nta)
+    nta = ctx["roles"]["classifier"]
+    ok_n = R.anchor(rid, "inner-name classifier used by the nests translation (NestTypeA::new)", nta)
     for cls, kind in sorted(spec["inner_name_classes"].items()):
         if cls.startswith("_"):
             continue
@@ -545,11 +636,6 @@ def r14_4(ctx, R):
     nests = ("st", "Nests", {"all": T.sym("nests.all"), "phantom": U.term("PhantomData")})
 
     def hooks_for(fn_key):
-        def h_new(args, n):
-            p = (n.get("callee") or {}).get("path") or ""
-            if p.startswith("dukenest::nester_run::") and p.endswith("::new"):
-                return U.term("translator", *args)
-            return None
 
         def h_keyed(args, n):
             if len(args) == 1 and args[0][0] == "iter":
@@ -562,19 +648,23 @@ def r14_4(ctx, R):
                 return T.V("Ok", U.term("keyed", *items))
             return None
         hk = {
-            "new": h_new,
-            "map_nests": lambda args, n: U.term("map_nests", *args),
             "default": lambda args, n: U.term("default"),
             "map_with_key_from_result_iter": h_keyed,
         }
         for q in ("map_class", "map_field_desc", "map_method_desc", "map_class_any", "map_return_desc"):
             hk[q] = (lambda q_: lambda args, n: U.term(q_, *args))(q)
+        rl_ = ctx["roles"]
+        if rl_["translator_new"]:
+            hk[rl_["translator_new"]["key"]] = lambda args, n: U.term("translator", *args)
+        for k_ in [rl_["map_nests"] and rl_["map_nests"]["key"], "dukenest::remap_nests"]:
+            if k_:
+                hk[k_] = lambda args, n: U.term("map_nests", *args)
         return hk
 
     if src is not None:
         for fname, flag in sorted(conf["apply_flag"].items()):
-            fn = c.fn(fname, within="nester_run")
-            if not R.anchor(rid, "fn nester_run::%s" % fname, fn):
+            fn = ctx["roles"]["apply" if flag else "undo"]
+            if not R.anchor(rid, "implementation of dukenest::%s" % fname, fn):
                 continue
             ins = fn.get("inputs") or []
             mi = [i for i, t in enumerate(ins) if t.startswith("quill::tree::mappings::Mappings")]
@@ -636,8 +726,10 @@ def r14_4(ctx, R):
 def r14_4_map_nests(ctx, R):
     rid = "R14.4"
     c, inline = ctx["c"], ctx["inline"]
-    fn = c.fn("map_nests", within="nests_mapper_run")
-    if not R.anchor(rid, "fn nests_mapper_run::map_nests", fn):
+    fn = ctx["roles"]["map_nests"]
+    sp_fn, in_fn = ctx["roles"]["split"], ctx["roles"]["inner_name"]
+    if not (R.anchor(rid, "implementation of dukenest::remap_nests", fn) and R.anchor(rid, "helper splitting an already-nested C__D name", sp_fn)
+            and R.anchor(rid, "helper computing the translated inner name", in_fn)):
         return
     ins = fn.get("inputs") or []
     ni = [i for i, t in enumerate(ins) if "dukenest::nest::Nests" in t]
@@ -663,8 +755,8 @@ def r14_4_map_nests(ctx, R):
                     "remapper_b_first_to_second": lambda args, n: T.V("Ok", U.term("remapper", ("s", "first->second"), args[0])),
                     "map_class": lambda args, n: U.term("map_class", *args),
                     "map_method_name_and_desc": lambda args, n: U.term("map_method_name_and_desc", *args),
-                    "rsplit_underscore": h_split,
-                    "inner_name": lambda args, n: U.term("inner_name", *args) if n.get("k") == "call" else None,
+                    sp_fn["key"]: h_split,
+                    in_fn["key"]: lambda args, n: U.term("inner_name", *args),
                     "default": h_default,
                 }
                 nest = mk_nest("K", "E", "I", kind, method="m" if meth == "some" else None)
@@ -702,8 +794,8 @@ def r14_4_map_nests(ctx, R):
                 R.inst(rid, "map_nests:%s:split-applies-to-translated-name" % case, seen_split_args == [[mapped]], sp=fn["sp"],
                        got=[[U.show(a) for a in x] for x in seen_split_args], expect="rsplit_underscore(translated class name)")
     # already-nested separator: split at the LAST "__"; the undo post-processing writes the same separator
-    rs = c.fn("rsplit_underscore")
-    if R.anchor(rid, "fn rsplit_underscore", rs):
+    rs = sp_fn
+    if rs:
         calls = [n for n in H.walk(rs["body"]) if n.get("k") == "mcall" and n["name"] in ("rsplit_once", "split_once", "rsplit", "split", "rfind", "find")]
         ok = len(calls) == 1 and calls[0]["name"] == "rsplit_once" and H.const_value(calls[0]["args"][0]) == "__"
         R.inst(rid, "already-nested-split:last-double-underscore", ok, sp=rs["sp"], got=[H.render(x) for x in calls],
@@ -713,8 +805,8 @@ def r14_4_map_nests(ctx, R):
 def r14_4_inner_name(ctx, R):
     rid = "R14.4"
     c, inline = ctx["c"], ctx["inline"]
-    fn = c.fn("inner_name", within="nests_mapper_run")
-    if not R.anchor(rid, "fn nests_mapper_run::inner_name", fn) or len(fn["params"]) != 3:
+    fn = ctx["roles"]["inner_name"]
+    if not fn or len(fn["params"]) != 3:
         return
     # (digit class of the nest's inner name, custom-name?/C_ prefix?) -> expected translated inner name
     cells = [
@@ -765,7 +857,7 @@ def r14_4_inner_name(ctx, R):
 def read_line_table(ctx, R):
     """abstract evaluation of io::read_line; shared by R14.1 (classification) and R14.5 (columns)."""
     c, inline, spec = ctx["c"], ctx["inline"], ctx["spec"]
-    fn = c.fn("read_line", within="io")
+    fn = ctx["roles"]["read_line"]
     if not fn:
         return None
     NF = spec["nests_file"]
@@ -806,7 +898,7 @@ def r14_5(ctx, R, rl):
                 "method descriptor, inner name, access); every Nest field is built from its column(s) only; class, enclosing class and "
                 "inner name must be non-empty; the enclosing method is absent iff its name or descriptor column is empty; every parsed "
                 "line is added to the table")
-    if not R.anchor(rid, "fn io::read_line", rl is not None):
+    if not R.anchor(rid, "line parser (&str) -> Result<Nest>", rl is not None):
         return
     fn, run, ncol = rl["fn"], rl["run"], rl["ncol"]
     base = {"c%d" % i: "plain" for i in range(ncol)}
@@ -864,13 +956,15 @@ def r14_5(ctx, R, rl):
             judge(R, rid, "encl-method-absent:name-%s/desc-%s" % ("empty" if ea else "given", "empty" if eb else "given"), g, T.V("None"), sp=fn["sp"])
     # every parsed line is added
     c = ctx["c"]
-    rfr = c.fn("read_from_reader", within="io")
-    if R.anchor(rid, "fn io::read_from_reader", rfr):
-        adds = [n for n in H.walk(rfr["body"]) if H.is_call(n, "add")]
+    rfr = ctx["roles"]["read_loop"]
+    add_fn = ctx["roles"]["add"]
+    if R.anchor(rid, "the function that reads the lines (caller of the line parser)", rfr) and R.anchor(rid, "fn Nests::add", add_fn):
+        adds = [n for n in H.walk(rfr["body"]) if n.get("k") in ("call", "mcall") and ((n.get("callee") or {}).get("inst_key") or (n.get("callee") or {}).get("key")) == add_fn["key"]]
         ok = False
         if len(adds) == 1:
             vals = U.expand_locals(rfr["body"], H.call_args(adds[0])[-1])
-            from_line = any(H.is_call(x, "read_line") for x in vals)
+            rlk = ctx["roles"]["read_line"]["key"]
+            from_line = any(x.get("k") in ("call", "mcall") and ((x.get("callee") or {}).get("inst_key") or (x.get("callee") or {}).get("key")) == rlk for x in vals)
             conds = [k for k, _, _ in H.path_conditions(rfr["body"], adds[0]) if k in ("if", "iflet", "arm", "after-exit")]
             in_loop = any(p.get("k") == "for" for p in (H.parents_of(rfr["body"], adds[0]) or []))
             ok = from_line and not conds and in_loop
@@ -1020,21 +1114,26 @@ def r14_6(ctx, R):
 def r14_7(ctx, R):
     rid = "R14.7"
     c = ctx["c"]
-    R.rule(rid, "the public entry points forward to the implementation of the same operation with their parameters in order "
-                "(nest_jar -> nester_jar::nest_jar, apply_/undo_nests_to_mappings -> nester_run::<same name>, remap_nests -> map_nests)")
-    table = {"nest_jar": "dukenest::nester_jar::nest_jar", "apply_nests_to_mappings": "dukenest::nester_run::apply_nests_to_mappings",
-             "undo_nests_to_mappings": "dukenest::nester_run::undo_nests_to_mappings", "remap_nests": "dukenest::nests_mapper_run::map_nests"}
-    for nm, target in sorted(table.items()):
+    R.rule(rid, "the public entry points forward their parameters in order to an implementation of the same signature; apply and undo end "
+                "in different implementations (R14.1-R14.6 evaluate whatever the entry points forward to)")
+    targets = {}
+    for nm in ("nest_jar", "apply_nests_to_mappings", "undo_nests_to_mappings", "remap_nests"):
         b = c.body("dukenest::" + nm)
         if not R.anchor(rid, "pub fn dukenest::%s" % nm, b):
             continue
-        t = H.peel(b["body"], refs=False)
-        while t.get("k") == "block" and "tail" in t and not t["stmts"]:
-            t = H.peel(t["tail"], refs=False)
-        ok = t.get("k") == "call" and (t.get("callee") or {}).get("path") == target
-        if ok:
-            pids = H.param_ids(b)
-            got = [H.local_of(a)[0] if H.local_of(a) else None for a in t["args"]]
-            ok = got == pids
-        R.inst(rid, "forward:%s" % nm, ok, sp=b["sp"], expect="%s(<parameters in order>)" % target, got=H.render(t)[:200])
-    R.floor(rid, 4)
+        t = _tail(b["body"])
+        callee = c.by_key.get((t.get("callee") or {}).get("key")) if t.get("k") == "call" else None
+        if callee is None:
+            # the entry point contains the implementation itself: nothing to forward
+            R.inst(rid, "forward:%s" % nm, True, sp=b["sp"], nontrivial=False, got="implemented in place")
+            targets[nm] = b["key"]
+            continue
+        pids = H.param_ids(b)
+        got = [H.local_of(a)[0] if H.local_of(a) else None for a in t["args"]]
+        same_sig = (callee.get("inputs") or []) and len(callee["inputs"]) == len(b.get("inputs") or []) and (callee.get("output") or "").split("<")[0] == (b.get("output") or "").split("<")[0]
+        R.inst(rid, "forward:%s" % nm, got == pids and bool(same_sig), sp=b["sp"], expect="<implementation>(<parameters in order>)", got=H.render(t)[:200])
+        targets[nm] = callee["key"]
+    if "apply_nests_to_mappings" in targets and "undo_nests_to_mappings" in targets:
+        R.inst(rid, "apply-and-undo-are-different-operations", targets["apply_nests_to_mappings"] != targets["undo_nests_to_mappings"], sp=None,
+               got=targets, detail="the two entry points must not end in the same implementation (what each does is decided by R14.4)")
+    R.floor(rid, 5)
